@@ -654,6 +654,14 @@ class Unit:
                     raise AnchorLost("%s: struct %s has no field `%s`" % (rel, name, kf))
             txt = toks_text(toks[:ob + 1]) + "\n" + ",\n".join(kept) + ",\n}"
         txt = rewrite_types(txt, self.counts)
+        for o in opts:
+            if o.startswith("retype="):
+                frm, to = o.split("=", 1)[1].split("=>")
+                if frm not in txt:
+                    raise AnchorLost("%s: struct %s: retype `%s` not found" % (rel, name, frm))
+                txt = txt.replace(frm, to)
+                self.counts.add("R2b.arc-of-interior-mutable-state-elided")
+                self.dropped.append("struct %s: field type `%s` -> `%s` (the Arc only shares interior-mutable state; sequential semantics)" % (name, frm, to))
         if add:
             m = re.search(r"#\[derive\(([^)]*)\)\]", txt)
             if m:
@@ -789,9 +797,13 @@ class Unit:
             args[closure_arg - 1] = [Tok("p", " opp", 0, 0)]
             new_expr = toks_text(etoks[:op + 1]) + ",".join(toks_text(a) for a in args) + toks_text(etoks[cl:])
             self.counts.add("R10.arm-closure-abstracted")
-        new_expr = rewrite_builtin(new_expr, self.counts, mutable=False)
+        new_expr = rewrite_builtin(new_expr, self.counts, mutable=("mutclient" in opts))
         if "strfrom" in opts:
             new_expr = apply_literal_rewrite(new_expr, "String::from(", "shim_string_from(", -1, self.counts, name_hint(variant))
+        for lno, ln in block:
+            if ln.startswith("//@rewrite"):
+                frm, to, expect, _w = _parse_rewrite(ln, self.vc_path, lno - 1)
+                new_expr = apply_literal_rewrite(new_expr, frm, to, expect, self.counts, name_hint(variant))
         ftype = "Fn() -> Response" if guard == "apply_if_auth" else "Fn(&Database) -> Response"
         params = []
         for field, bind in bindings:
@@ -800,13 +812,19 @@ class Unit:
                 raise AnchorLost("%s: arm Request::%s: field `%s` not found in enum Request" % (rel, variant, field))
             params.append("%s: %s" % (bind, ftypes[field]))
         name = "arm_" + re.sub(r"(?<!^)(?=[A-Z])", "_", variant).lower()
-        sig = "fn %s<F: %s>(%s%sdbs: &Arc<Databases>, client: &Client, opp: &F) -> (r: Response)" % (
-            name, ftype, ", ".join(params), ", " if params else "")
+        if closure_arg:
+            sig = "fn %s<F: %s>(%s%sdbs: &Arc<Databases>, client: &Client, opp: &F) -> (r: Response)" % (
+                name, ftype, ", ".join(params), ", " if params else "")
+        else:
+            sig = "fn %s(%s%sdbs: &Arc<Databases>, client: &%sClient) -> (r: Response)" % (
+                name, ", ".join(params), ", " if params else "", "mut " if "mutclient" in opts else "")
         owner_name = name
         self.emit(sig, owner_name, None, "sig", src="%s:%d" % (rel, src_line))
         label, labels = None, []
         ghost_lines, in_ghost = [], False
         for lno, ln in block:
+            if ln.startswith("//@rewrite"):
+                continue
             if ln.strip() == "//@insert start":
                 in_ghost = True; continue
             if in_ghost:
